@@ -79,7 +79,20 @@ func gen(t *rapid.T) Case {
 	if rapid.IntRange(0, 5).Draw(t, "single") == 0 {
 		nops = 1 // tables with exactly one route make the name-equivalence clause decidable
 	}
-	c.Ops = life.GenOps(t, cfg, c.Pool, nops, life.GenOpts{Hostile: false, NewMethods: true, Trace: c.Trace})
+	var liveEnd, ever []string
+	c.Ops, liveEnd, ever = life.GenOpsT(t, cfg, c.Pool, nops, life.GenOpts{Hostile: false, NewMethods: true, Trace: c.Trace})
+	var dead []*pat.Pattern // registered at some point, gone at the end: their nodes may still be in the tree
+	for _, p := range ever {
+		gone := true
+		for _, q := range liveEnd {
+			if p == q {
+				gone = false
+			}
+		}
+		if gone {
+			dead = append(dead, pat.MustParse(p, cfg.Icpt))
+		}
+	}
 	var parsed []*pat.Pattern
 	for _, p := range c.Pool {
 		parsed = append(parsed, pat.MustParse(p, cfg.Icpt))
@@ -90,6 +103,9 @@ func gen(t *rapid.T) Case {
 	}
 	for i, n := 0, rapid.IntRange(1, 5).Draw(t, "ncalls"); i < n; i++ {
 		base := rapid.SampledFrom(parsed).Draw(t, "callBase")
+		if len(dead) > 0 && rapid.IntRange(0, 2).Draw(t, "fromDead") == 0 {
+			base = rapid.SampledFrom(dead).Draw(t, "callBaseDead")
+		}
 		valid := rapid.Permutation(ref.AnyMethods).Draw(t, "validPerm")[:rapid.IntRange(0, 3).Draw(t, "nvalid")]
 		call := Call{Pattern: base.Src}
 		ins := func(ms []string, bad string) []string {
